@@ -629,7 +629,35 @@ func (r *Resolver) reachingDef(id *ast.Ident, obj types.Object) (defSite, bool) 
 			reaching = append(reaching, p.d)
 		}
 	}
-	if len(reaching) != 1 {
+	if len(reaching) > 1 {
+		// several definitions reach the use, but all of them are the same plain read (`score := S(p)` and a
+		// later `score = S(p)`): the variable holds "a value of that expression" whichever one arrived
+		same := true
+		if _, basic := obj.Type().Underlying().(*types.Basic); !basic {
+			same = false // identity matters for pointers, maps, slices: `out = copy(out)` in two branches are two objects
+		}
+		var first *V
+		for _, d := range reaching {
+			if d.kind != "assign" || d.rhs == nil || d.idx != reaching[0].idx || d.n != reaching[0].n {
+				same = false
+				break
+			}
+			v := r.Val(d.rhs)
+			if v == nil || v.Kind == "var" || v.Kind == "opaque" || v.Kind == "unknown" {
+				same = false
+				break
+			}
+			if first == nil {
+				first = v
+			} else if !first.Equal(v) {
+				same = false
+				break
+			}
+		}
+		if !same {
+			return defSite{}, false
+		}
+	} else if len(reaching) != 1 {
 		return defSite{}, false
 	}
 	d := reaching[0]
